@@ -1241,6 +1241,11 @@ func (e *Env) method(recv reflect.Value, name string, args []Val) (Val, *Err) {
 			}
 			x := a[0]
 			return Val{K: KGo, R: reflect.ValueOf(&facts.Sub{X: x, Y: float64(x) / 2, S: "mk" + strconv.FormatInt(x, 10), B: x%2 == 0, Arr: []int64{x, x + 1, x + 2}})}, nil
+		case "IsNB":
+			if len(args) != 0 {
+				return Val{}, errf(EKind, "argument count")
+			}
+			return Val{K: KBool, B: bool(obj.NB)}, nil
 		case "GetH":
 			if len(args) != 0 {
 				return Val{}, errf(EKind, "argument count")
